@@ -2,7 +2,10 @@ module verifharness
 
 go 1.22.0
 
-require github.com/enbility/spine-go v0.0.0
+require (
+	github.com/enbility/spine-go v0.0.0
+	golang.org/x/tools v0.29.0
+)
 
 require (
 	github.com/ahmetb/go-linq/v3 v3.2.0 // indirect
@@ -10,6 +13,8 @@ require (
 	github.com/golanguzb70/lrucache v1.2.0 // indirect
 	github.com/rickb777/date v1.21.1 // indirect
 	github.com/rickb777/plural v1.4.2 // indirect
+	golang.org/x/mod v0.22.0 // indirect
+	golang.org/x/sync v0.10.0 // indirect
 )
 
 replace github.com/enbility/spine-go => /repo
